@@ -1,5 +1,5 @@
 (* CorrC06.v — correspondence checker for C06 (all wire formats store the same profile). *)
-From Pyro Require Export Model.Base Model.Tree Model.Varint Model.TTrie Model.TextFormats Model.Ingest Corr.Verdict.
+From Pyro Require Export Model.Base Model.Tree Model.Varint Model.TTrie Model.TextFormats Model.Ingest Model.UrlCoding Corr.Verdict.
 Open Scope string_scope.
 
 Record stored := {
@@ -8,7 +8,8 @@ Record stored := {
   st_spy : bytes; st_rate : N; st_units : bytes; st_agg : bytes   (* segment metadata *)
 }.
 Record sent := {
-  sn_query : query;                 (* the query parameters of the request *)
+  sn_query : query;                 (* the query parameters of the request, keys in sorted order *)
+  sn_rawq : bytes;                  (* the raw query string Go wrote for them (url.Values.Encode) *)
   sn_ctype : bytes;                 (* Content-Type *)
   sn_body : bytes;                  (* request body *)
   sn_stored : stored
@@ -30,6 +31,8 @@ Record case := {
   c_go_groups : option (list (bytes * Z) * bool);   (* convert.ParseGroups on the groups body: callbacks, err == nil *)
   c_go_lines : option (list (bytes * N) * bool);    (* convert.ParseIndividualLines on the lines body, sorted by key *)
   c_raw : option (bytes * (list (bytes * Z) * bool) * (list (bytes * N) * bool));  (* arbitrary body through both parsers *)
+  c_remote_rawq : option bytes;     (* r.URL.RawQuery of the request remote.uploadProfile sent *)
+  c_hostile_q : option (bytes * list (bytes * bytes));   (* an arbitrary raw query string; url.ParseQuery (error dropped): (key, Get(key)) for every key, sorted *)
   c_raw_groups : option stored;     (* the arbitrary body sent to /ingest as collapsed text; c_ms = what the client meant (may be []) *)
   c_raw_lines : option stored       (* ... and with format=lines *)
 }.
@@ -67,6 +70,8 @@ Definition fmt_eqb (a b : wire_format) : bool :=
 Definition otree_eqb (a b : option tnode) : bool :=
   match a, b with Some x, Some y => t_eqb x y | None, None => true | _, _ => false end.
 
+Definition qpair_eqb (a b : bytes * bytes) : bool := beqb (fst a) (fst b) && beqb (snd a) (snd b).
+
 Definition check_sent (name : string) (fmt : wire_format) (want : tnode) (m : meta) (o : option sent) : list verdict :=
   match o with
   | None => []
@@ -74,6 +79,8 @@ Definition check_sent (name : string) (fmt : wire_format) (want : tnode) (m : me
       let ip := ingest_params_of (sn_query s) (sn_ctype s) in
       [ spec (tree_is want (sn_stored s)) (name ++ ": the stored profile is not the multiset that was sent");
         spec (meta_eqb m (sn_stored s)) (name ++ ": spy name / sample rate / units / aggregation type not stored as sent (or not the defaults)");
+        corr (list_eqb N.eqb (url_encode_query (sn_query s)) (sn_rawq s)) (name ++ ": url_encode_query model differs from url.Values.Encode");
+        corr (list_eqb qpair_eqb (url_parse_query (sn_rawq s)) (sn_query s)) (name ++ ": url_parse_query model differs from the parameters sent");
         corr (fmt_eqb (ip_format ip) fmt) (name ++ ": model selects another parser");
         corr (meta_eqb (ip_spy ip, ip_rate ip, ip_units ip, ip_aggregation ip) (sn_stored s))
              (name ++ ": ingest_params model differs from the stored metadata") ]
@@ -139,6 +146,14 @@ Definition check_case (c : case) : verdict :=
           spec (tree_is want s) "remote upload: the stored profile is not the multiset that was sampled";
           spec (meta_eqb (job_meta j) s) "remote upload: metadata of the job not stored";
           corr (query_agrees (upload_query j) q && beqb ct upload_content_type) "upload_query model differs from the request the server received";
+          corr (match c_remote_rawq c with
+                | Some raw => list_eqb N.eqb (url_encode_query (upload_query j)) raw
+                | None => true
+                end) "url_encode_query (upload_query job) differs from the raw query string remote.go wrote";
+          corr (match c_remote_rawq c with
+                | Some raw => list_eqb qpair_eqb (url_parse_query raw) q
+                | None => true
+                end) "url_parse_query of the raw query string differs from what the handler saw (r.URL.Query())";
           corr (let ip := ingest_params_of (upload_query j) upload_content_type in
                 meta_eqb (ip_spy ip, ip_rate ip, ip_units ip, ip_aggregation ip) s && fmt_eqb (ip_format ip) FTrie)
                "ingest_params (upload_query job) differs from what was stored" ]
@@ -180,6 +195,14 @@ Definition check_case (c : case) : verdict :=
     | Some s =>
         [ corr (negb (N.eqb (st_status (sn_stored s)) 200) || otree_eqb (tree_via_tree (sn_body s)) (st_tree (sn_stored s)))
                "tree decoded by the model's tc_deserialize_nodict differs from the stored tree" ]
+    | None => []
+    end ++
+    match c_hostile_q c with
+    | Some (raw, got) =>
+        let m := url_parse_query raw in
+        [ corr (forallb (fun kv => beqb (q_get (fst kv) m) (snd kv)) got
+                && forallb (fun kv => existsb (fun g => beqb (fst g) (fst kv)) got) m)
+               "url_parse_query model differs from url.ParseQuery on an arbitrary query string" ]
     | None => []
     end ++
     match c_raw c, c_raw_groups c with
